@@ -503,9 +503,12 @@ def _world_set_outbuf(self, v):
 World.outbuf = property(_world_get_outbuf, _world_set_outbuf)
 
 
+REPLY_CAP = {'cap': 2}    # capacity of a slot's reply queue; iocommon.io_executor replaces it by what ChannelSlot::new really creates
+
+
 def mk_slot(w, name, chan_id, consumers=1, reply_prefill=0, ret='some', conf='some', collector=None):
     """ChannelSlot value. ret/conf: 'some' (listener with symbolic liveness) | 'none'"""
-    reply = Chan(name + '.reply', 2, True)
+    reply = Chan(name + '.reply', REPLY_CAP['cap'], True)
     for i in range(reply_prefill):
         reply.queue.append(('PREFILLED', i))
     rxchan = Chan(name + '.rx', None, True)
@@ -663,6 +666,13 @@ def io_summaries():
             S.append((pat, f))
             return f
         return deco
+
+    @reg(r'^(frame_buffer::)?FrameBuffer::new$')
+    def fb_new(ex, st, fn, argv):
+        n = len(st.roots.setdefault('new_frame_buffers', []))
+        v = Agg({}, 'FrameBuffer', f'fresh-frame-buffer{n}')
+        st.roots['new_frame_buffers'].append(v)
+        return [(st, v)]
 
     @reg(r'^IndexSet::<u16>::insert$')
     def freed_insert(ex, st, fn, argv):
